@@ -37,7 +37,7 @@ static ExecResult execute(const Scenario &sc, const std::vector<int> &prefix, co
         else for (int t = 0; t < sc.nthreads; t++) if (outs[t] != refs[t]) { size_t d = 0; while (d < outs[t].size() && d < refs[t].size() && outs[t][d] == refs[t][d]) d++; verdict = fmt("thread %d: output differs from its sequential reference (first differing byte %zu of %zu)", t, d, refs[t].size()); break; }
         blob(enc_trace(tr) + "|" + verdict);
         if (tr.deadlock) { fflush(nullptr); }
-    }, 120);
+    }, 120, true, true);   // strict: an execution that does not finish is a verdict (wedged token / real deadlock)
     if (f.died()) { R.died = true; R.verdict = "process died under this schedule: " + fate_str(f) + " " + f.text.substr(0, 200); return R; }
     std::string b = S().blob; size_t bar = b.rfind('|'); if (bar == std::string::npos) { R.verdict = "FRAMEWORK: no trace from child"; return R; }
     R.pts = dec_trace(b.substr(0, bar)); R.verdict = b.substr(bar + 1);
